@@ -294,6 +294,9 @@ func TestVerif_C11_policy(t *testing.T) {
 	r := s.Rand()
 	hdrPool := []string{"Authorization", "Cookie", "X-Custom", "X-Multi", "X-Other", "Www-Authenticate"}
 	c := C()
+	var prevCl *Client
+	var prevPs []c11Pol
+	var prevLine0, prevScen string
 	n := verifh.N(15000, 300000)
 	for i := 0; i < n; i++ {
 		a := c11GenAuth(r, false)
@@ -351,7 +354,12 @@ func TestVerif_C11_policy(t *testing.T) {
 		// clients grown by Clone / SetRedirectPolicy calls: whatever the history, the client
 		// evaluated must enforce what the Go-side bookkeeping (and the lifetime model) says.
 		cl, line0, scen := c, "", ""
-		if r.Intn(3) == 0 {
+		if prevCl != nil && r.Intn(2) == 0 {
+			// the SAME configured client and policy instances judge another, unrelated redirect:
+			// a policy is a function of (req, via) only, whatever it was asked before
+			cl, ps, line0, scen = prevCl, prevPs, prevLine0, prevScen
+			s.Count("reused-policy-instance")
+		} else if r.Intn(3) == 0 {
 			fam := c11NewFamily(C(), c11DefaultPols)
 			fam.grow(r, func() []c11Pol {
 				if r.Intn(2) == 0 {
@@ -377,6 +385,7 @@ func TestVerif_C11_policy(t *testing.T) {
 			line0 = "c11policy " + c11EncPols(ps)
 			s.Count("direct")
 		}
+		prevCl, prevPs, prevLine0, prevScen = cl, ps, line0, scen
 		for _, p := range ps {
 			s.Count("pol:" + p.kind)
 			if p.kind != "nil" && p.kind != "no" && p.kind != "max" {
@@ -421,5 +430,5 @@ func TestVerif_C11_policy(t *testing.T) {
 		s.Case(line, ans, dec == want, class, nontriv,
 			scen+c11ShowPols(ps)+" req="+req+" via="+strings.Join(via, ",")+" -> "+c11DecisionName[dec])
 	}
-	s.FinishRequire("direct", "family:original", "family:set-on-clone", "family:clone-of-clone-inherits", "family:clone-inherits,parent-reconfigured-later", "family:clone-inherits", "family:empty-set-call", "pol:nil", "pol:no", "pol:max", "pol:samehost", "pol:samedomain", "pol:ahost", "pol:adomain", "pol:copy", "decision:allow", "decision:deny", "decision:uselast")
+	s.FinishRequire("direct", "reused-policy-instance", "family:original", "family:set-on-clone", "family:clone-of-clone-inherits", "family:clone-inherits,parent-reconfigured-later", "family:clone-inherits", "family:empty-set-call", "pol:nil", "pol:no", "pol:max", "pol:samehost", "pol:samedomain", "pol:ahost", "pol:adomain", "pol:copy", "decision:allow", "decision:deny", "decision:uselast")
 }
